@@ -1638,4 +1638,200 @@ theorem sorted_get (fr : List (Rat × Rat)) (i : Nat) (p : Rat × Rat)
   | some k => rw [ho] at h; exact ⟨k, rfl, by simpa using h⟩
 
 
+/-! ## refined tracks and programs that refine (deepening round D) -/
+
+/-- stronger than `refineLoop_settled` at the two edge pixels: the refined coordinate is in `[0, n − 1]` -/
+theorem refineLoop_position (eps : Rat) (heps : 0 < eps) (cols : List (List Int)) (h : Nat) (n : Int) (hn : 1 ≤ n)
+    (hi : ImageOK cols n) (fuel : Nat) (pts pts' : List (Int × Nat)) (hin : ∀ p ∈ pts, 0 ≤ p.1 ∧ p.1 < n)
+    (hr : refineLoop eps cols h n fuel pts = some pts') :
+    ∀ p ∈ pts', (0 : Rat) ≤ (p.1 : Rat) + offsetAt eps (cols.getD p.2 []) h p.1 ∧
+      (p.1 : Rat) + offsetAt eps (cols.getD p.2 []) h p.1 ≤ (n : Rat) - 1 := by
+  intro p hp
+  obtain ⟨⟨h0, h1⟩, h2, h3⟩ := refineLoop_settled eps heps cols h n hn hi fuel pts pts' hin hr p hp
+  obtain ⟨hc, hl⟩ := imageOK_getD cols n (by omega) hi p.2
+  constructor
+  · by_cases hz : p.1 = 0
+    · rw [hz]; have := offsetAt_first_nonneg eps heps _ hc h; simp; exact this
+    · have : (1 : Rat) ≤ (p.1 : Rat) := by exact_mod_cast (by omega : 1 ≤ p.1)
+      linarith
+  · by_cases hz : p.1 = n - 1
+    · rw [hz]; have := offsetAt_last_nonpos eps heps _ hc h n hl; push_cast; linarith
+    · have : (p.1 : Rat) ≤ (n : Rat) - 2 := by
+        have : p.1 ≤ n - 2 := by omega
+        exact_mod_cast this
+      linarith
+
+theorem refineIter_times (eps : Rat) (cols : List (List Int)) (h : Nat) (n : Int) (pts : List (Int × Nat)) :
+    (refineIter eps cols h n pts).1.map (·.2) = pts.map (·.2) := by
+  unfold refineIter
+  simp only [List.map_map]
+  apply List.map_congr_left
+  intro p _
+  simp only [Function.comp, movePt]
+  split
+  · rfl
+  · split <;> rfl
+
+theorem refineLoop_times (eps : Rat) (cols : List (List Int)) (h : Nat) (n : Int) (fuel : Nat)
+    (pts pts' : List (Int × Nat)) (hr : refineLoop eps cols h n fuel pts = some pts') :
+    pts'.map (·.2) = pts.map (·.2) := by
+  induction fuel generalizing pts with
+  | zero => simp [refineLoop] at hr
+  | succ f ih =>
+    unfold refineLoop at hr
+    simp only at hr
+    split at hr
+    · injection hr with hr; subst hr
+      exact refineIter_times eps cols h n pts
+    · rw [ih _ hr, refineIter_times]
+
+theorem roundHalfEven_range (r : Rat) (a b : Int) (ha : (a : Rat) ≤ r) (hb : r ≤ (b : Rat)) :
+    a ≤ roundHalfEven r ∧ roundHalfEven r ≤ b := by
+  have hf1 : a ≤ r.floor := Rat.le_floor_iff.2 ha
+  have hf2 : (r.floor : Rat) ≤ r := Rat.floor_le r
+  have hup : r - (r.floor : Rat) ≥ 1/2 → r.floor + 1 ≤ b := by
+    intro hge
+    have : (r.floor : Rat) < (b : Rat) := by linarith
+    have : r.floor < b := by exact_mod_cast this
+    omega
+  have hfb : r.floor ≤ b := by
+    have : (r.floor : Rat) ≤ (b : Rat) := by linarith
+    exact_mod_cast this
+  unfold roundHalfEven
+  simp only
+  split
+  · exact ⟨hf1, hfb⟩
+  · rename_i h1
+    split
+    · exact ⟨by omega, hup (by linarith)⟩
+    · split
+      · exact ⟨hf1, hfb⟩
+      · exact ⟨by omega, hup (by linarith [not_lt.1 h1])⟩
+
+theorem regroup_flatten {β} (g : List (List β)) : regroup (g.map List.length) g.flatten = g := by
+  induction g with
+  | nil => rfl
+  | cons a g ih =>
+    simp only [List.map_cons, List.flatten_cons, regroup, List.take_left', List.drop_left', ih]
+
+theorem regroup_map {β γ} (f : β → γ) (lens : List Nat) (l : List β) :
+    (regroup lens l).map (·.map f) = regroup lens (l.map f) := by
+  induction lens generalizing l with
+  | nil => rfl
+  | cons k ks ih => simp only [regroup, List.map_cons, List.map_take, List.map_drop, ih]
+
+theorem regroup_mem {β} (lens : List Nat) (l : List β) : ∀ t ∈ regroup lens l, ∀ x ∈ t, x ∈ l := by
+  induction lens generalizing l with
+  | nil => intro t ht; simp [regroup] at ht
+  | cons k ks ih =>
+    intro t ht x hx
+    simp only [regroup, List.mem_cons] at ht
+    rcases ht with rfl | ht
+    · exact List.mem_of_mem_take hx
+    · exact List.mem_of_mem_drop (ih _ t ht x hx)
+
+theorem refineTracks_wf (eps : Rat) (heps : 0 < eps) (cols : List (List Int)) (h : Nat) (n : Int) (hn : 1 ≤ n)
+    (hi : ImageOK cols n) (g g' : List Track)
+    (hg : ∀ t ∈ g, WellFormed (cols.length : Int) 0 ((n : Rat) - 1) t)
+    (hr : refineTracks eps cols h n g = .ok g') :
+    g'.map timesOf = (g.map interpolate).map timesOf ∧
+      ∀ t ∈ g', WellFormed (cols.length : Int) 0 ((n : Rat) - 1) t := by
+  have hig : ∀ t ∈ g.map interpolate, WellFormed (cols.length : Int) 0 ((n : Rat) - 1) t := by
+    intro t ht
+    obtain ⟨t0, ht0, rfl⟩ := List.mem_map.1 ht
+    exact interpolate_wf _ _ _ _ (hg t0 ht0)
+  unfold refineTracks at hr
+  simp only at hr
+  generalize hIG : g.map interpolate = ig at hr hig ⊢
+  generalize hpts : (ig.flatten.map fun p => (roundHalfEven p.2, p.1.toNat)) = pts at hr
+  have hflat : ∀ p ∈ ig.flatten, 0 ≤ p.1 ∧ (0 : Rat) ≤ p.2 ∧ p.2 ≤ (n : Rat) - 1 := by
+    intro p hp
+    obtain ⟨t, ht, hpt⟩ := List.mem_flatten.1 hp
+    have := (hig t ht).2.2 p hpt
+    exact ⟨this.1, this.2.2.1, this.2.2.2⟩
+  have hin : ∀ p ∈ pts, 0 ≤ p.1 ∧ p.1 < n := by
+    intro p hp
+    rw [← hpts] at hp
+    obtain ⟨q, hq, rfl⟩ := List.mem_map.1 hp
+    have hb := hflat q hq
+    have := roundHalfEven_range q.2 0 (n - 1) (by push_cast; exact hb.2.1) (by push_cast; exact hb.2.2)
+    exact ⟨this.1, by simp only; omega⟩
+  unfold refineMoment at hr
+  split at hr
+  · cases hr
+  · rename_i ps hps
+    split at hps
+    · cases hps
+    · split at hps
+      · cases hps
+      · rename_i _ loopres hloop
+        injection hps with hps
+        injection hr with hr
+        subst hps
+        have htimes := refineLoop_times eps cols h n 100 pts loopres hloop
+        have hpos := refineLoop_position eps heps cols h n hn hi 100 pts loopres hin hloop
+        simp only [List.map_map] at hr
+        -- the flat list of refined points
+        generalize hout : (loopres.map ((fun q : Rat × Nat × Int => ((q.2.1 : Int), q.1)) ∘ fun p : Int × Nat =>
+          ((p.1 : Rat) + offsetAt eps (cols.getD p.2 []) h p.1, p.2, m0At (cols.getD p.2 []) h p.1))) = outl at hr
+        have hfst : outl.map (·.1) = ig.flatten.map (·.1) := by
+          rw [← hout, List.map_map]
+          have e1 : loopres.map (fun p => ((p.2 : Nat) : Int)) = (loopres.map (·.2)).map (fun (k : Nat) => (k : Int)) := by
+            rw [List.map_map]; rfl
+          show loopres.map (fun p => ((p.2 : Nat) : Int)) = _
+          rw [e1, htimes, ← hpts, List.map_map, List.map_map]
+          apply List.map_congr_left
+          intro p hp
+          have := (hflat p hp).1
+          simp only [Function.comp]
+          omega
+        have hT : g'.map timesOf = ig.map timesOf := by
+          subst hr
+          have := regroup_map (fun p : Int × Rat => p.1) (ig.map List.length) outl
+          unfold timesOf
+          rw [this, hfst, ← regroup_map, regroup_flatten]
+        refine ⟨hT, ?_⟩
+        intro t ht
+        obtain ⟨j, hj⟩ := List.mem_iff_getElem?.1 ht
+        have hj' : (ig.map timesOf)[j]? = some (timesOf t) := by rw [← hT, List.getElem?_map, hj]; rfl
+        rw [List.getElem?_map] at hj'
+        cases hig_j : ig[j]? with
+        | none => rw [hig_j] at hj'; simp at hj'
+        | some it =>
+          rw [hig_j] at hj'
+          simp only [Option.map_some, Option.some.injEq] at hj'
+          have hwf := hig it (List.mem_of_getElem? hig_j)
+          refine ⟨?_, ?_, ?_⟩
+          · intro h0
+            have : timesOf it = [] := by rw [hj', h0]; rfl
+            exact hwf.1 (List.map_eq_nil_iff.1 this)
+          · unfold Inc; rw [← hj']; exact hwf.2.1
+          · intro p hp
+            have hpt : p.1 ∈ timesOf it := by rw [hj']; exact List.mem_map.2 ⟨p, hp, rfl⟩
+            obtain ⟨q, hq, hq1⟩ := List.mem_map.1 hpt
+            have hb := hwf.2.2 q hq
+            have hpo : p ∈ outl := by subst hr; exact regroup_mem _ _ t ht p hp
+            rw [← hout] at hpo
+            obtain ⟨lp, hlp, rfl⟩ := List.mem_map.1 hpo
+            have := hpos lp hlp
+            simp only [Function.comp] at hq1 ⊢
+            exact ⟨by omega, by omega, this.1, this.2⟩
+
+theorem runSteps_wf (eps : Rat) (heps : 0 < eps) (lt : Rat) (cols : List (List Int)) (n : Int) (hn : 1 ≤ n)
+    (hi : ImageOK cols n) (sts : List Step) (g : List Track)
+    (hg : ∀ t ∈ g, WellFormed (cols.length : Int) 0 ((n : Rat) - 1) t) :
+    ∀ t ∈ runSteps eps lt cols n sts g, WellFormed (cols.length : Int) 0 ((n : Rat) - 1) t := by
+  induction sts generalizing g with
+  | nil => exact hg
+  | cons st sts ih =>
+    unfold runSteps
+    split
+    · rename_i g' h
+      apply ih g'
+      cases st with
+      | edit op => exact applyOp_wf lt g op g' hg h
+      | refine hh => exact (refineTracks_wf eps heps cols hh n hn hi g g' hg h).2
+    · exact ih g hg
+
+
 end Verif.C08
